@@ -202,19 +202,21 @@ def initial_trees(chunk):
 
 def plan(tier, seed):
     if tier == 'quick':
-        specs, L = [(1, 2, 1), (2, 2, 2), (3, 1, 2), (4, 0, 1)], 3
+        specs = [(1, 2, 1, 3, 1), (2, 2, 2, 3, 1), (3, 1, 2, 3, 2), (4, 1, 1, 3, 2)]
     else:
-        specs, L = [(1, 3, 1), (2, 2, 2), (3, 2, 3), (4, 1, 2), (5, 0, 1)], 5
+        specs = [(1, 3, 1, 5, 1), (2, 2, 2, 5, 2), (3, 2, 2, 5, 24), (4, 1, 2, 4, 6), (5, 0, 1, 4, 1)]
     chunks = []
-    for n, u, maxp in specs:
-        chunks += sweep.shape_chunks([(n, u)], per_chunk=2, maxp=maxp, depth=L)
+    for n, u, maxp, L, parts in specs:
+        for c in sweep.shape_chunks([(n, u)], per_chunk=2, maxp=maxp, depth=L):
+            for part in range(parts):
+                chunks.append(dict(c, parts=parts, part=part))
     return {
         'chunks': chunks,
         'rule': 'initial states: every hierarchy over n tokens (<= u unary insertions) x every word assignment '
                 'with <= p punctuation tokens from %r; transitions: %d transformation instances, enabled when '
-                'their documented prerequisites hold; BFS to depth %d with a seen-set on (canonical tree, flags)'
-                % (PWORDS, len(OPS), L),
-        'bound': ', '.join('n=%d:u<=%d:p<=%d' % s for s in specs) + '; depth %d' % L,
+                'their documented prerequisites hold; BFS to depth L with a seen-set on (canonical tree, flags). '
+                'non-trivial initial states = those with punctuation or a gap' % (PWORDS, len(OPS)),
+        'bound': ', '.join('n=%d:u<=%d:p<=%d:L=%d' % s[:4] for s in specs),
         'exhaustive': True,
         'explanation': 'states = distinct (canonical tree, prerequisite flags) reached; transitions = real '
                        'transformation calls, each checked by the step invariants; traces = states without '
@@ -319,7 +321,7 @@ def check_case(case):
 def run_chunk(chunk):
     res = Result()
     with quiet():
-        inits = list(initial_trees(chunk))
+        inits = [m for i, m in enumerate(initial_trees(chunk)) if i % chunk.get('parts', 1) == chunk.get('part', 0)]
         res.evals = len(inits)
         res.nontrivial = sum(1 for m in inits if any(t['word'] != 'w' for t in m.toks)
                              or model.mt_tree_gap_degree(m.root) > 0)
